@@ -8,7 +8,7 @@ from lib.kernel import Kernel, Unrecognised, show
 from lib.dispatch import dispatchers
 
 TECHNIQUE = ("kernel normal form with a copy_into(dst, offset) primitive: block order and offset = sum of the previous copies, per concatenation struct; "
-             "structural check of the guarded pushes in matrix_row()/matrix(); kind-ladder comparison of the horzcat and vertcat dispatchers")
+             "MIR-level, path-sensitive check that every push of a block in matrix_row()/matrix() (or a private helper) lies behind the agree edge of the extent comparison, the (re)definition of the reference shape or the accumulator-empty edge (rules/c11_guard.py); kind-ladder comparison of the horzcat and vertcat dispatchers")
 EXPLANATION = (
     "Decides structural clauses of C11: (R1) matrix_row() only accepts a block whose row count equals the first block's and matrix() only a row whose column "
     "count equals the first row's, every other case exits with Err before MatrixHorzCat / MatrixVertCat is compiled; (R3) each fixed-arity concatenation "
@@ -26,17 +26,6 @@ def flatten_sum(v):
     if isinstance(v, tuple) and v[0] == "op" and v[1] == "+":
         return flatten_sum(v[2]) + flatten_sum(v[3])
     return [v]
-
-
-def if_chain(e):
-    """[(cond or None, block)] of an if / else-if / else chain"""
-    out = []
-    while is_node(e) and e[0] == "if":
-        out.append((e[1], e[2]))
-        e = e[3]
-    if e is not None:
-        out.append((None, e[1] if is_node(e) and e[0] == "block" else [["expr", e, False]]))
-    return out
 
 
 def run(F, rep, tier):
